@@ -203,10 +203,11 @@ def built_cases(draw):
         "names": draw(st.sampled_from(NAMES)),
         "schema": schema,
         "parts": [draw(_part(schema, s)) for s in sizes],
-        "alias": nparts >= 2 and not draw(st.integers(0, 3)),
+        "alias": nparts >= 2 and draw(st.sampled_from(
+            [False, True, False, False])),
         # only the fields that check_collocation_data calls mandatory
         # (pairs, group), i.e. no Collocations/interval and /distance
-        "mandatory_only": not draw(st.integers(0, 7)),
+        "mandatory_only": draw(st.sampled_from([False] * 6 + [True])),
         "reference": draw(st.sampled_from(
             ["default", "default", "primary", "primary", "secondary",
              "secondary", "secondary", "secondary", "unknown"])),
@@ -407,7 +408,8 @@ def collocator_cases(draw):
         "names": draw(st.sampled_from(NAMES + [None])),
         "schema": schema,
         "parts": [draw(_colloc_part(schema)) for _ in range(nparts)],
-        "alias": nparts >= 2 and not draw(st.integers(0, 3)),
+        "alias": nparts >= 2 and draw(st.sampled_from(
+            [False, True, False, False])),
         "max_distance": draw(st.sampled_from(MAX_DISTANCES)),
         "max_interval": draw(st.sampled_from(MAX_INTERVALS)),
         "reference": draw(st.sampled_from(
